@@ -435,8 +435,10 @@ func (p *parseVisitor) VisitSaveFromAccount(c *parser2.SaveFromAccountContext) *
 			return LogicError(c, fmt.Errorf(
 				"save monetary all from account: the first expression should be of type 'asset' instead of '%s'", typ))
 		}
+		p.PushAddress(*addr)
 	} else if mon := c.GetMon(); mon != nil {
-		typ, addr, compErr = p.VisitExpr(mon, false)
+		// push the value of the expression (not just its leftmost operand)
+		typ, _, compErr = p.VisitExpr(mon, true)
 		if compErr != nil {
 			return compErr
 		}
@@ -445,7 +447,6 @@ func (p *parseVisitor) VisitSaveFromAccount(c *parser2.SaveFromAccountContext) *
 				"save monetary from account: the first expression should be of type 'monetary' instead of '%s'", typ))
 		}
 	}
-	p.PushAddress(*addr)
 
 	typ, addr, compErr = p.VisitExpr(c.GetAcc(), false)
 	if compErr != nil {
